@@ -40,7 +40,7 @@ _OPNAMES = {"**": "pow", "//": "floordiv", "<<": "lshift", ">>": "rshift", "<=":
 
 def slug(s: str) -> str:
     s = " ".join(_OPNAMES.get(w, w) for w in s.split(" "))
-    return re.sub(r"[^A-Za-z0-9_.-]+", "_", s)[:80].strip("_")
+    return re.sub(r"[^A-Za-z0-9_.-]+", "_", s)[:140].strip("_")
 
 
 class Candidate:
